@@ -82,6 +82,9 @@ public:
 
         for (const auto& key : key_range)
         {
+            // An element inserted earlier in this range with a zero ttl has already expired.
+            do_prune(now);
+
             if (do_insert_update(key, expire_time, a))
             {
                 ++inserted;
